@@ -346,6 +346,10 @@ pub fn run(prop: &str, tier: &str, seed: u64, workers: usize) -> Report {
                 if md.is_none() { md = Some(crate::model::Model::spawn()); }
                 let res = { let m = md.as_mut().unwrap(); catch(std::panic::AssertUnwindSafe(|| { let mut r2 = Report::default(); placement_case(seed, ci, m, &mut r2); r2 })) };
                 match res { Ok(r2) => rep.merge(r2), Err(e) => { md = None; rep.evaluations += 1; rep.fail(json!({"property": prop, "class": "panic", "error": e, "case": {"stream": 403, "index": ci}})); } }
+                // array calls through the cursor against the block-level transcription (Crdt/BlockIter.v), on editor sessions
+                if md.is_none() { md = Some(crate::model::Model::spawn()); }
+                let res = { let m = md.as_mut().unwrap(); catch(std::panic::AssertUnwindSafe(|| { let mut r2 = Report::default(); crate::yib::case(seed, ci, m, &mut r2); r2 })) };
+                match res { Ok(r2) => rep.merge(r2), Err(e) => { md = None; rep.evaluations += 1; rep.fail(json!({"property": prop, "class": "panic", "error": e, "case": {"stream": 140, "index": ci, "seed": seed}})); } }
                 // rich text calls against the item-level model and the sequential specification (Crdt/RichText.v)
                 if md.is_none() { md = Some(crate::model::Model::spawn()); }
                 let res = { let m = md.as_mut().unwrap(); catch(std::panic::AssertUnwindSafe(|| { let mut r2 = Report::default(); crate::rtx::case(seed, ci, m, &mut r2); r2 })) };
